@@ -14,7 +14,7 @@ import json
 from sim import gen
 from sim.engine import keyed_rng
 from sim.spec import spec_kinds, iter_constraints
-from .base import Check, Verdict, resolve_perturb, decision_pins
+from .base import Check, Verdict, resolve_perturb, decision_pins, engine_nonoptimal
 
 SAFE_CONSTRAINTS = ["TaskStartAt", "TaskStartAfter", "TaskEndAt", "TaskEndBefore", "TaskPrecedence", "TasksStartSynced", "TasksEndSynced",
                     "TasksDontOverlap", "TasksContiguous", "UnorderedTaskGroup", "OrderedTaskGroup", "OptionalTaskForceSchedule",
@@ -284,6 +284,10 @@ class C14(Check):
                 v.violate("C14", f"verdict_differs/{what}", kinds, {e1["client"]: e1["outcome"], e2["client"] + "'": e2["outcome"]}, e2["seq"], e2["client"])
                 continue
             if spec.get("objectives") and e1["outcome"] == "solution":
+                bad_engine = [x for x in (engine_nonoptimal(e1), engine_nonoptimal(e2)) if x is not None]
+                if bad_engine:
+                    v.violate("C14", "engine_nonoptimal", ["z3.Optimize"], bad_engine[0], e2["seq"], e2["client"])
+                    continue
                 o1, o2 = obj(e1), obj(e2)
                 if o1 is not None and o2 is not None:
                     v.probe("optimum_compared:" + what)
